@@ -462,3 +462,8 @@ func tcpAborted() {
 	kit.Observe("side=%d n=%d %s", side, n, how)
 	kit.Must("Socket.Close", func() { _ = w.sock.Close() })
 }
+
+// Bodies re-run by C11 under the race-instrumented build.
+var RaceBodies = map[string]func(){
+	"c13-attach-vs-drop": schedAttachDrop,
+}
